@@ -12,13 +12,18 @@ import (
 	"fmt"
 	"io"
 	"math/big"
+	"net/http"
+	"net/http/httptest"
 	"os"
 	"path/filepath"
 	"strings"
+	"sync"
 	"time"
 
+	"github.com/sassoftware/relic/v8/config"
 	"github.com/sassoftware/relic/v8/lib/pkcs7"
 	"github.com/sassoftware/relic/v8/lib/pkcs9"
+	"github.com/sassoftware/relic/v8/lib/pkcs9/tsclient"
 
 	"verif/gen/dergen"
 	"verif/relicx"
@@ -56,29 +61,123 @@ type harnessTSA struct {
 	answer   func(query []byte) ([]byte, error)
 	lastResp []byte
 	err      error
+
+	once   sync.Once
+	client pkcs9.Timestamper
+	cerr   error
 }
 
-// Timestamp mirrors tsclient.tsClient.Timestamp/do minus the HTTP hop: digest
-// the signature, build the request with pkcs9.NewRequest, hand the body to the
-// authority, parse with TimeStampReq.ParseResponse.
+// The authority side is the harness's (dergen tokens or `openssl ts -reply`);
+// the client side is relic's own lib/pkcs9/tsclient over loopback HTTP, not a
+// replica of it: request building, reading of the reply, response parsing and
+// the sanity check are whatever the tree under test does.
+var (
+	tsaSrvOnce sync.Once
+	tsaSrv     *httptest.Server
+	tsaMu      sync.Mutex
+	tsaReg     = map[string]*harnessTSA{}
+	tsaSeq     int
+)
+
+func tsaServer() *httptest.Server {
+	tsaSrvOnce.Do(func() {
+		tsaSrv = httptest.NewServer(http.HandlerFunc(func(w http.ResponseWriter, r *http.Request) {
+			tsaMu.Lock()
+			h := tsaReg[strings.TrimPrefix(r.URL.Path, "/")]
+			tsaMu.Unlock()
+			body, _ := io.ReadAll(r.Body)
+			if h == nil {
+				http.Error(w, "unknown authority", 404)
+				return
+			}
+			resp, err := h.answer(body)
+			if err != nil {
+				h.err = err
+				http.Error(w, err.Error(), 500)
+				return
+			}
+			h.lastResp = resp
+			w.Header().Set("Content-Type", "application/timestamp-reply")
+			w.Write(resp)
+		}))
+	})
+	return tsaSrv
+}
+
 func (h *harnessTSA) Timestamp(ctx context.Context, req *pkcs9.Request) (*pkcs7.ContentInfoSignedData, error) {
-	d := req.Hash.New()
-	d.Write(req.EncryptedDigest)
-	msg, httpReq, err := pkcs9.NewRequest("http://tsa.invalid/", req.Hash, d.Sum(nil))
-	if err != nil {
-		return nil, err
+	h.once.Do(func() {
+		srv := tsaServer()
+		tsaMu.Lock()
+		tsaSeq++
+		id := fmt.Sprintf("a%d", tsaSeq)
+		tsaReg[id] = h
+		tsaMu.Unlock()
+		h.client, h.cerr = tsclient.New(&config.TimestampConfig{URLs: []string{srv.URL + "/" + id}, Timeout: 60})
+	})
+	if h.cerr != nil {
+		return nil, h.cerr
 	}
-	body, err := io.ReadAll(httpReq.Body)
-	if err != nil {
-		return nil, err
+	return h.client.Timestamp(ctx, req)
+}
+
+// tokenLifetimePhase: tokens handed out by the real client stay what they were
+// when they were handed out. Several requests in a row through ONE client
+// (replies of different sizes); after every new reply each earlier token is
+// marshalled again and must give the bytes it gave when it was returned, and
+// must still be the authority's token for ITS request.
+func tokenLifetimePhase() {
+	shapes := []*dergen.Params{nil}
+	for _, certs := range []string{"chain", "none", "leaf"} {
+		p := dergen.Params{Version: "3", DigAlgs: "1n", EContent: "tst", Certs: certs, CRLs: "no", Signers: "1", SID: "ias",
+			Attrs: "sorted", SigAlg: "rsa", Unsigned: "none", Trailing: "0", Key: "tsa"}
+		shapes = append(shapes, &p)
 	}
-	resp, err := h.answer(body)
-	if err != nil {
-		h.err = err
-		return nil, err
+	cur := 0
+	h := &harnessTSA{}
+	h.answer = func(q []byte) ([]byte, error) { return dergenTSA(shapes[cur%len(shapes)])(q) }
+	type issued struct {
+		tok  *pkcs7.ContentInfoSignedData
+		blob []byte
+		sig  []byte
 	}
-	h.lastResp = resp
-	return msg.ParseResponse(resp)
+	var all []issued
+	in := &input{Src: "tsclient", Label: "token lifetime"}
+	for i := 0; i < 2*len(shapes); i++ {
+		cur = i
+		sig := dergen.Digest(crypto.SHA256, []byte(fmt.Sprintf("signature value %d", i)))
+		tok, err := h.Timestamp(context.Background(), &pkcs9.Request{EncryptedDigest: sig, Hash: crypto.SHA256})
+		run.Eval(1)
+		if err != nil {
+			if h.err != nil {
+				harnessError(in, "tsa", h.err.Error())
+				return
+			}
+			run.Outcome("token-lifetime:refused:" + short(err))
+			continue
+		}
+		blob, err := tok.Marshal()
+		if err != nil {
+			violation("token-lifetime:marshal-error", err.Error(), in.replay("token-lifetime", nil))
+			continue
+		}
+		want, werr := tokenOfResponse(h.lastResp)
+		if werr == nil && !bytes.Equal(blob, want) {
+			violation("token-lifetime:token-differs-from-reply", fmt.Sprintf("request %d: the token the client returned marshals to %d bytes that are not the authority's %d", i+1, len(blob), len(want)), in.replay("token-lifetime", nil))
+		}
+		all = append(all, issued{tok, blob, sig})
+		for j, old := range all[:len(all)-1] {
+			again, err := old.tok.Marshal()
+			if err != nil || !bytes.Equal(again, old.blob) {
+				violation("token-lifetime:earlier-token-changed-after-a-later-reply", fmt.Sprintf("token %d no longer marshals to what it was when it was returned, after %d later request(s) through the same client (err=%v)", j+1, len(all)-1-j, err), in.replay("token-lifetime", map[string]any{"token": j + 1, "requests": len(all)}))
+				return
+			}
+			if _, err := pkcs9.Verify(old.tok, old.sig, nil); err != nil {
+				violation("token-lifetime:earlier-token-no-longer-verifies", fmt.Sprintf("token %d: %v", j+1, err), in.replay("token-lifetime", nil))
+				return
+			}
+		}
+		run.Outcome("token-lifetime:stable")
+	}
 }
 
 var hashNameOfOID = map[string]string{
